@@ -387,6 +387,8 @@ def rule_lookup_delegation(ctx, prog, rule="R13"):
                     ok = recv_ok and arg_ok and idx_ok
                     detail = "= self.index_of(value).map(|left| self.index(left)) with Bins::index(i) = Range{edges[i], edges[i+1]} and right = left+1 (R20)" if ok else \
                         "range_of via index_of/index: receiver is self=%s, argument is the left index=%s, Bins::index is Range{edges[i], edges[i+1]}=%s" % (recv_ok, arg_ok, idx_ok)
+    if ok and len(list(br.reaching_defs(0, br.exits()[0], "term"))) != 1:
+        ok, detail = False, "Bins::range_of has a second way of producing its result besides the mapped lookup"
     ctx.ob(rule, "Bins::range_of/delegates", ok, br.where(), detail, what="accessor does not use the lookup primitive")
     gs = prog.find("histogram::grid::Grid::<A>::shape")
     r = strip(gs.return_expr())
@@ -401,6 +403,14 @@ def rule_lookup_delegation(ctx, prog, rule="R13"):
             ok = bad is None and strip(re_) == ("field", ("param", 1, "self"), "projections")
     ctx.ob(rule, "Grid::shape/delegates", ok, gs.where(), "= projections.iter().map(Bins::len).collect()" if ok else
            "Grid::shape is `%s`" % fmt(r)[:160], what="grid shape not the per-axis bin counts in order")
+    # Bins::is_empty agrees with Bins::len
+    be = prog.find("histogram::bins::Bins::<A>::is_empty", required=False)
+    if be is not None:
+        r = strip(be.return_expr())
+        oke = isinstance(r, tuple) and r[0] == "binop" and r[1] == "Eq" and strip(r[3]) == ("const", "usize", 0) and \
+            isinstance(strip(r[2]), tuple) and strip(r[2])[0] == "call" and strip(r[2])[1] == "len" and strip(strip(r[2])[3][0])[:2] == ("param", 1)
+        ctx.ob(rule, "Bins::is_empty/agrees-with-len", oke, be.where(), "= (self.len() == 0)" if oke else "Bins::is_empty is `%s`" % fmt(r)[:100],
+               what="is_empty disagrees with len")
     # Grid::ndim is the number of projections (it is the arity every point / index is compared with)
     gn = prog.find("histogram::grid::Grid::<A>::ndim")
     r = strip(gn.return_expr())
